@@ -391,7 +391,7 @@ def gen_cfg(rng, prob_spec, small=True, networks=None, pool=None, n_batch=None, 
 
 def make_sampler(prob, cfg, filepath=None, resume=True, likelihood=None):
     from nautilus import Sampler
-    pool = {'none': None, 'l2': (2, None), 's2': (None, 2), 'b2': 2, 'l4': (4, None)}[cfg.get('pool', 'none')]
+    pool = {'none': None, 'l2': (2, None), 's2': (None, 2), 'b2': 2, 'l4': (4, None), 'l3': (3, None)}[cfg.get('pool', 'none')]
     kw = dict(n_live=cfg['n_live'], n_update=cfg['n_update'], enlarge_per_dim=cfg['enlarge_per_dim'],
               n_points_min=cfg['n_points_min'], split_threshold=cfg['split_threshold'],
               periodic=np.array(cfg['periodic']) if cfg['periodic'] is not None else None,
